@@ -50,6 +50,21 @@ def _load() -> None:
 
     _bl._PYTYPE_TO_WRAPPER_TYPE[float] = ((_bl.RealBasedSymbolicFloat, 1.0),)
 
+    # Nested-contract enforcement is switched off: the harnesses carry the only
+    # contracts. CrossHair otherwise inspects EVERY called function for PEP-316
+    # conditions, which (a) raises ValueError('Cell is empty') from
+    # inspect.getclosurevars on closures called before all their cells are
+    # filled (Interpreter._deliver's `_delayed`), silently turning delayed sends
+    # into contained action errors under tracing, and (b) costs time.
+    import crosshair.enforce as _enf
+
+    def _no_enforcement(self, frame, fn, binding_target):  # type: ignore[no-untyped-def]
+        if isinstance(fn, _enf.NoEnforce):
+            return fn.fn
+        return None
+
+    _enf.EnforcedConditions.trace_call = _no_enforcement  # type: ignore[assignment]
+
     orig_check = z3.Solver.check
 
     def timed_check(self, *a, **k):  # type: ignore[no-untyped-def]
